@@ -380,3 +380,10 @@ Theorem multi_hub_charged_at_construction : forall st j s u l, nth_error st j = 
 Proof.
   intros st j s u l H. cbn [step gather]. unfold give. rewrite H. destruct u as [|u']; reflexivity.
 Qed.
+
+(* s.filter(None) (the documented special value of the built-in filter): keeps exactly the truthy
+   items, in order; nothing else changes; the stream stays usable (no error at the first pull) *)
+Theorem filter_none_keeps_truthy : forall st i l, nth_error st i = Some (EStream (fin l)) ->
+  step st (OFilter i PTruthy) =
+  (set_nth i (EStream (fin (filter (fun x => negb (x =? 0)%Z) l))) st, OSelf).
+Proof. intros st i l H. cbn [step]. unfold apply_t. rewrite H. reflexivity. Qed.
